@@ -107,7 +107,7 @@ type runInfo struct {
 type progCtx struct {
 	id     string
 	mu     sync.Mutex
-	events []Event           // in the order the harness observed them
+	events []Event            // in the order the harness observed them
 	logs   map[string][]Entry // per run
 	runs   map[string][]int
 }
